@@ -199,6 +199,26 @@ def is_failpath_memset(fn, inst, buf_vals, len_slot):
     return d is not None and d.op == "load" and parse_load(d) == len_slot
 
 
+def whole_capacity_memset(fn, inst, bslot, lslot):
+    """`memset(buffer, 0, len)` on the unmodified parameters: args are direct loads of the two parameter slots and no
+    later store into either slot can reach the call.  Such a write is within the capacity whatever the message needs."""
+    if inst.op != "call" or not inst.callee or not (inst.callee.startswith("llvm.memset") or inst.callee == "memset"):
+        return False
+    if len(inst.args) < 3 or inst.args[1] != "0":
+        return False
+    defs = fn.defs()
+    d0, d2 = defs.get(inst.args[0]), defs.get(inst.args[2])
+    if d0 is None or d0.op != "load" or parse_load(d0) != bslot:
+        return False
+    if d2 is None or d2.op != "load" or parse_load(d2) != lslot:
+        return False
+    for s in fn.insts():
+        if s.op == "store" and parse_store(s)[1] in (bslot, lslot) and parse_store(s)[0] not in fn.params:
+            if fn.reaches(s, inst):
+                return False
+    return True
+
+
 def returns_constant_on(fn, start_label, const="0"):
     """Every path from block start_label to a ret passes a store of `const` into the slot the ret loads
     (the -O0 return-value slot), and no other store to that slot follows on the path."""
